@@ -368,6 +368,10 @@ class Interp:
                         last.get('exp_held') or last['held']):
                     last['cut'] = True
                     last['cut_token'] = info_[0]
+                elif last['y'] == inst_ and info_:
+                    # (perhaps an event carried over from an earlier entry
+                    # that was cut short: known when the history is judged)
+                    last['cut_cand'] = info_[0]
             raise
 
     def fail(self, props, kind, detail=''):
@@ -878,6 +882,9 @@ class Interp:
         lst = sorted(self.listeners(y, 'on_switch_in'))
         want_in = sorted((lab, a) for lab in lst for a in in_args)
         got_in = sorted((names[i][1], life[i][4]) for i in ins)
+        if rec and rec.get('cut_cand') in held and not rec.get('cut_token'):
+            rec['cut_token'], rec['cut'] = rec['cut_cand'], True
+            cut = True
         cut_token = rec.get('cut_token') if (rec and cut) else None
         pl = self.listeners(y, 'probe')
         if y in self.unsure:
